@@ -442,7 +442,23 @@ pub fn exec_project(input: &Value) -> (Value, Value) {
                 Err(e) => gen_result = json!({"err": e.to_string()}),
             }
         }
-        json!({"commands": cmds, "events": events, "structs": structs, "deps": deps, "generated": gen_result, "files": files})
+        // C10: the same analysis through the generator of the other output mode
+        let mut alt_types = json!(null);
+        if !commands.is_empty() {
+            let other = if cfg.validation_library == "zod" { "none" } else { "zod" };
+            let mut cfg2 = cfg.clone();
+            cfg2.validation_library = other.into();
+            let out2 = root.join("out_alt");
+            cfg2.output_path = out2.to_string_lossy().to_string();
+            let mut g2 = create_generator(Some(other.to_string()));
+            if g2.generate_models(&commands, structs_map, &cfg2.output_path, &analyzer, &cfg2).is_ok() {
+                if let Ok(t) = std::fs::read_to_string(out2.join("types.ts")) {
+                    alt_types = json!(strip_ts(&t));
+                }
+            }
+        }
+        json!({"commands": cmds, "events": events, "structs": structs, "deps": deps, "generated": gen_result, "files": files,
+               "alt_types": alt_types})
     });
     let _ = std::fs::remove_dir_all(&root);
     (in2, imp)
